@@ -46,6 +46,34 @@ CLAUSES = [
     ("torch_frame.cat dispatch on tensor data (Tensor / MNT / MET / dict)", "same keys with kind dense / dict", "via=tf, scenarios tensor, dict"),
 ]
 
+# BOUNDARIES of the dimensions in QUANTIFIED OVER; every name below is a tag of the dedicated stream
+# boundary_cases() (drawn in EVERY run, both kinds x both payloads unless noted), counted in stats()['boundary']
+# and required by sanity().
+BOUNDARIES = [
+    # containers (shape / cell lengths)
+    "shape:1x1", "shape:1xN", "shape:Nx1", "shape:0xN(sel)", "shape:Nx0(sel)", "shape:0x0(sel)",
+    "cells:all-empty", "cells:one-scalar", "cells:all-equal-length", "cells:longest-first", "cells:longest-last",
+    "met:all-widths-0", "met:one-col-width-1",
+    # partitions into 1..k parts, both axes (suffix :0 / :1)
+    "part:k=1-whole-object", "part:k=1-copy", "part:k=n-singletons", "part:empty-first", "part:empty-last",
+    "part:empty-middle-twice", "part:all-empty-but-one", "part:equal-sizes", "part:same-object-twice",
+    "part:same-object-thrice", "part:selection-of-selection", "part:clone-and-original", "part:int-index-parts",
+    # cat entry points at the one / two element boundary
+    "cat:one-element-static", "cat:one-element-tf", "cat:two-elements-tf",
+    # rejections: sizes n vs n+1, position of the odd part, zero vs one
+    "reject:empty-list", "reject:count-n-vs-n+1-last", "reject:count-n-vs-n+1-first", "reject:count-0-vs-1",
+    "reject:widths-permuted", "reject:widths-last-col+1", "accept:widths-equal-independent",
+    # fill values and columns
+    "fill:col-first", "fill:col-last", "fill:only-col", "fill:value=marker(no-op)", "fill:value=existing-value",
+    "fill:no-missing-in-col", "fill:all-missing-in-col", "fill:col-all-cells-empty", "fill:zero-rows",
+    "fill:marker-first-and-last-scalar", "fill:neighbours-of-marker(0,-2)", "fill:twice-same-col",
+    # dense padding
+    "dense:one-cell", "dense:L=0", "dense:L=1", "dense:no-padding-needed", "dense:fill=existing-value",
+    # store / aliasing
+    "store:fill-view-first-row", "store:fill-view-last-row", "store:view-of-view", "store:clone-of-view",
+    "store:fill-after-same-object-cat", "store:whole-slice-is-same-object",
+]
+
 PROP = "C06"
 HEADER = "Require Import PF.Lib.PySlice PF.Model.Ragged PF.Model.RaggedRun PF.Model.RaggedCat PF.Model.RaggedStore."
 MODEL_TARGETS = ["Model/RaggedCat.vo", "Model/RaggedStore.vo"]
@@ -625,9 +653,188 @@ def decorate(rng, case):
     return case
 
 
+def _lens_cells(kind, dtype, lens, start=1, missing=()):
+    """cells with the given cell lengths lens[r][c]; scalar number k (1-based, row-major) is missing if k in missing"""
+    k = [0]
+    out = []
+    for row in lens:
+        r = []
+        for ln in row:
+            c = []
+            for _ in range(ln):
+                k[0] += 1
+                if k[0] in missing:
+                    c.append(None if dtype == "float" else -1)
+                else:
+                    c.append(start + k[0] + (0.5 if dtype == "float" else 0))
+            r.append(c)
+        out.append(r)
+    return out
+
+
+def boundary_cases(rng):
+    """the dedicated boundary stream: one or more cases per entry of BOUNDARIES, in every run"""
+    out = []
+
+    def add(tag, kind, dtype, expr, bases=(), final=None, whole=None, prog=None, scenario="boundary"):
+        c = {"kind": kind, "dtype": dtype, "bases": list(bases), "scenario": scenario, "boundary": tag,
+             "final": final or {"op": "cells"}, "expr": expr if prog is None else {"t": "prog"}}
+        if whole is not None:
+            c["whole"] = whole
+        if prog is not None:
+            c["prog"] = prog
+        out.append(decorate(rng, c) if prog is None else dict(c, width=rng.pick([64, 32])))
+
+    def sl(a, b):
+        return {"t": "slice", "a": a, "b": b, "s": None}
+
+    def sel(node, d, ix):
+        return {"t": "sel", "s": node, "dim": d, "idx": ix}
+
+    def cat(xs, d, via="static"):
+        return {"t": "cat", "xs": xs, "dim": d, "via": via}
+
+    ref0 = {"t": "ref", "k": 0}
+    for kind in ("mnt", "met"):
+        for dtype in ("int", "float"):
+            miss = -1 if dtype == "int" else None
+            fills = INT_FILLS if dtype == "int" else FLOAT_FILLS
+            L = (lambda rows: rows) if kind == "mnt" else (lambda rows: [list(rows[0]) for _ in rows])
+            # a standard 3x3 with a missing scalar in every column
+            std = _lens_cells(kind, dtype, L([[2, 1, 3], [1, 0, 2], [3, 2, 1]]), missing=(1, 3, 8, 12))
+            via = rng.pick(["static", "tf"])
+            # ---- shapes
+            for tag, lens in (("shape:1x1", [[2]]), ("shape:1xN", [[1, 2, 0, 3]]), ("shape:Nx1", [[2], [1], [3], [2]]),
+                              ("cells:all-empty", [[0, 0], [0, 0]]), ("cells:one-scalar", [[1]]),
+                              ("cells:all-equal-length", [[2, 2], [2, 2]]),
+                              ("cells:longest-first", [[3, 1], [1, 2]]), ("cells:longest-last", [[1, 2], [1, 3]])):
+                if kind == "met" and tag.startswith("cells:longest"):
+                    lens = [[3, 1], [3, 1]] if tag.endswith("first") else [[1, 3], [1, 3]]
+                cells = _lens_cells(kind, dtype, L(lens), missing=(1,))
+                for d in (0, 1):
+                    n = len(cells) if d == 0 else len(cells[0])
+                    parts = [sel(ref0, d, sl(0, n // 2)), sel(ref0, d, sl(n // 2, n))]
+                    add(tag, kind, dtype, cat(parts, d, via), [cells], whole=ref0,
+                        final={"op": "dense", "fill": fills[0]} if kind == "mnt" and d == 0 else None)
+            if kind == "met":
+                cells = _lens_cells(kind, dtype, [[0, 0, 0]] * 2)
+                add("met:all-widths-0", kind, dtype, cat([sel(ref0, 1, sl(0, 1)), sel(ref0, 1, sl(1, 3))], 1), [cells], whole=ref0)
+                add("met:all-widths-0", kind, dtype, cat([ref0, ref0], 0), [cells])
+                cells = _lens_cells(kind, dtype, [[1]] * 3, missing=(2,))
+                add("met:one-col-width-1", kind, dtype, {"t": "fill", "s": cat([ref0, {"t": "clone", "s": ref0}], 1),
+                                                          "col": 1, "value": fills[1]}, [cells])
+            for tag, ixs in (("shape:0xN(sel)", [(0, {"t": "list", "l": []})]), ("shape:Nx0(sel)", [(1, sl(2, 2))]),
+                             ("shape:0x0(sel)", [(0, sl(1, 1)), (1, {"t": "mask", "m": [False] * 3})])):
+                whole = ref0
+                for d, ix in ixs:
+                    whole = sel(whole, d, ix)
+                for d in (0, 1):
+                    for k in (1, 2):
+                        add(tag, kind, dtype, cat([sel(whole, d, sl(0, 0)) if i else sel(whole, d, sl(None, None))
+                                                   for i in range(k)], d, rng.pick(["static", "tf"])), [std], whole=whole)
+                add(tag, kind, dtype, {"t": "clone", "s": whole}, [std])
+            # ---- partitions
+            for d in (0, 1):
+                n = 3
+                t = f":{d}"
+                add("part:k=1-whole-object" + t, kind, dtype, cat([ref0], d, "static"), [std], whole=ref0)
+                add("part:k=1-copy" + t, kind, dtype, cat([sel(ref0, d, {"t": "list", "l": [0, 1, 2]})], d, via), [std], whole=ref0)
+                add("part:k=n-singletons" + t, kind, dtype, cat([sel(ref0, d, sl(i, i + 1)) for i in range(n)], d, via), [std], whole=ref0)
+                add("part:int-index-parts" + t, kind, dtype, cat([sel(ref0, d, {"t": "int", "i": i}) for i in (0, -2, 2)], d, via), [std], whole=ref0)
+                add("part:empty-first" + t, kind, dtype, cat([sel(ref0, d, sl(0, 0)), ref0], d, via), [std], whole=ref0)
+                add("part:empty-last" + t, kind, dtype, cat([ref0, sel(ref0, d, sl(3, 3))], d, via), [std], whole=ref0)
+                add("part:empty-middle-twice" + t, kind, dtype,
+                    cat([sel(ref0, d, sl(0, 1)), sel(ref0, d, sl(1, 1)), sel(ref0, d, {"t": "list", "l": []}),
+                         sel(ref0, d, sl(1, 3))], d, via), [std], whole=ref0)
+                add("part:all-empty-but-one" + t, kind, dtype,
+                    cat([sel(ref0, d, sl(0, 0)), sel(ref0, d, sl(0, 0)), ref0, sel(ref0, d, sl(3, None))], d, via), [std], whole=ref0)
+                big = _lens_cells(kind, dtype, L([[1, 2, 1, 0], [2, 1, 0, 1], [0, 1, 2, 1], [1, 0, 1, 2]]), missing=(2, 9))
+                add("part:equal-sizes" + t, kind, dtype, cat([sel(ref0, d, sl(0, 2)), sel(ref0, d, sl(2, 4))], d, via), [big], whole=ref0)
+                add("part:same-object-twice" + t, kind, dtype, cat([ref0, ref0], d, via), [std])
+                add("part:same-object-thrice" + t, kind, dtype, cat([ref0, sel(ref0, d, sl(None, None)), ref0], d, "static"), [std])
+                add("part:selection-of-selection" + t, kind, dtype,
+                    cat([sel(sel(ref0, d, sl(1, 3)), d, sl(0, 1)), sel(sel(ref0, d, {"t": "list", "l": [2, 0]}), d, sl(0, 1))], d, via), [std])
+                add("part:clone-and-original" + t, kind, dtype, cat([{"t": "clone", "s": ref0}, ref0], d, via), [std])
+                add("cat:one-element-static" + t, kind, dtype, cat([sel(ref0, d, sl(1, 3))], d, "static"), [std])
+                add("cat:one-element-tf" + t, kind, dtype, cat([sel(ref0, d, sl(1, 3))], d, "tf"), [std])
+                add("cat:two-elements-tf" + t, kind, dtype, cat([sel(ref0, d, sl(1, 3)), sel(ref0, d, sl(0, 1))], d, "tf"), [std])
+                # ---- rejections
+                add("reject:empty-list" + t, kind, dtype, cat([], d, via))
+                a = _lens_cells(kind, dtype, L([[1, 2], [2, 1]]))
+                b = _lens_cells(kind, dtype, L([[1, 2, 1], [2, 1, 1]]) if d == 0 else L([[1, 2], [2, 1], [1, 1]]), start=40)
+                A_, B_ = {"t": "base", "cells": a}, {"t": "base", "cells": b}
+                add("reject:count-n-vs-n+1-last" + t, kind, dtype, cat([A_, A_, B_], d, via))
+                add("reject:count-n-vs-n+1-first" + t, kind, dtype, cat([B_, A_, A_], d, via))
+                add("reject:count-0-vs-1" + t, kind, dtype,
+                    cat([sel(A_, 1 - d, sl(0, 0)), sel(A_, 1 - d, sl(0, 1))], d, via))
+            if kind == "met":
+                a = _lens_cells(kind, dtype, [[1, 2, 1]] * 2)
+                b = _lens_cells(kind, dtype, [[2, 1, 1]] * 2, start=40)
+                c = _lens_cells(kind, dtype, [[1, 2, 2]] * 1, start=70)
+                e = _lens_cells(kind, dtype, [[1, 2, 1]] * 3, start=90)
+                A_, B_, C_, E_ = ({"t": "base", "cells": x} for x in (a, b, c, e))
+                add("reject:widths-permuted", kind, dtype, cat([A_, B_], 0, via))
+                add("reject:widths-last-col+1", kind, dtype, cat([A_, E_, C_], 0, via))
+                add("accept:widths-equal-independent", kind, dtype, cat([A_, E_], 0, via))
+            else:
+                add("reject:widths-permuted", kind, dtype, cat([ref0, ref0], 0), [std])          # (MET-only boundaries:
+                add("reject:widths-last-col+1", kind, dtype, cat([ref0, ref0], 0), [std])        #  the tag is shared so
+                add("accept:widths-equal-independent", kind, dtype, cat([ref0, ref0], 0), [std])  #  that sanity is uniform)
+            # ---- fill
+            def fill(node, j, v):
+                return {"t": "fill", "s": node, "col": j, "value": v}
+            base = {"t": "base", "cells": std}
+            add("fill:col-first", kind, dtype, fill(base, 0, fills[1]))
+            add("fill:col-last", kind, dtype, fill(base, 2, fills[1]))
+            add("fill:only-col", kind, dtype, fill(sel(base, 1, sl(1, 2)), 0, fills[1]))
+            add("fill:value=marker(no-op)", kind, dtype, fill(base, 0, miss))
+            add("fill:value=existing-value", kind, dtype, fill(base, 0, std[0][1][0]))
+            nom = _lens_cells(kind, dtype, L([[2, 1], [1, 2]]), missing=(2,))
+            add("fill:no-missing-in-col", kind, dtype, fill({"t": "base", "cells": nom}, 1, fills[1]))
+            allm = _lens_cells(kind, dtype, L([[2, 1], [2, 1]]), missing=(1, 2, 4, 5))
+            add("fill:all-missing-in-col", kind, dtype, fill({"t": "base", "cells": allm}, 0, fills[1]))
+            emp = _lens_cells(kind, dtype, L([[0, 2], [0, 2]]), missing=(1,))
+            add("fill:col-all-cells-empty", kind, dtype, fill(fill({"t": "base", "cells": emp}, 0, fills[1]), 1, fills[3]))
+            for j in (0, 2):
+                add("fill:zero-rows", kind, dtype, fill(sel(base, 0, sl(1, 1)), j, fills[1]))
+            ends = _lens_cells(kind, dtype, L([[2, 1], [1, 2]]), missing=(1, 6))
+            add("fill:marker-first-and-last-scalar", kind, dtype, fill(fill({"t": "base", "cells": ends}, 0, fills[1]), 1, fills[1]))
+            if dtype == "int":
+                nb = [[[0, -2, -1], [-2]], [[-1, 0, 1], [0]]] if kind == "mnt" else [[[0, -2, -1], [-2]], [[-1, 0, 1], [0]]]
+                add("fill:neighbours-of-marker(0,-2)", kind, dtype, fill(fill({"t": "base", "cells": nb}, 0, 777), 1, 777))
+            else:
+                nb = [[[0.0, -1.0, None], [-1.0]], [[None, 0.0, 1.0], [0.0]]]
+                add("fill:neighbours-of-marker(0,-2)", kind, dtype, fill(fill({"t": "base", "cells": nb}, 0, 123.5), 1, 123.5))
+            add("fill:twice-same-col", kind, dtype, fill(fill(base, 1, fills[1]), 1, fills[3]))
+            # ---- dense (MultiNestedTensor only; the tag is shared)
+            if kind == "mnt":
+                for tag, lens, fv in (("dense:one-cell", [[2]], fills[0]), ("dense:L=0", [[0, 0], [0, 0]], fills[1]),
+                                      ("dense:L=1", [[1, 0], [0, 1]], fills[0]), ("dense:no-padding-needed", [[2, 2], [2, 2]], fills[1])):
+                    cells = _lens_cells(kind, dtype, lens, missing=(1,))
+                    add(tag, kind, dtype, {"t": "base", "cells": cells}, final={"op": "dense", "fill": fv})
+                    add(tag, kind, dtype, cat([{"t": "base", "cells": cells}, {"t": "base", "cells": cells}], 1), final={"op": "dense", "fill": miss})
+                add("dense:fill=existing-value", kind, dtype, base, final={"op": "dense", "fill": std[0][0][1]})
+            # ---- store programs
+            B = {"op": "base", "cells": std}
+            def S(v, d, ix):
+                return {"op": "sel", "v": v, "dim": d, "idx": ix}
+            def F(v, j, x):
+                return {"op": "fill", "v": v, "col": j, "value": x}
+            add("store:fill-view-first-row", kind, dtype, None, prog=[B, S(0, 0, sl(0, 1)), F(1, 0, fills[1]), S(0, 0, sl(0, 2))])
+            add("store:fill-view-last-row", kind, dtype, None, prog=[B, S(0, 0, {"t": "int", "i": -1}), F(1, 2, fills[1]), S(0, 0, sl(1, 3))])
+            add("store:view-of-view", kind, dtype, None, prog=[B, S(0, 0, sl(1, 3)), S(1, 0, sl(1, 2)), F(2, 2, fills[1]), S(2, 1, sl(1, 3)), F(4, 0, fills[3])])
+            add("store:clone-of-view", kind, dtype, None, prog=[B, S(0, 0, sl(1, 3)), {"op": "clone", "v": 1}, F(2, 0, fills[1]), F(1, 2, fills[3])])
+            for d in (0, 1):
+                add("store:fill-after-same-object-cat", kind, dtype, None,
+                    prog=[B, {"op": "cat", "vs": [0, 0], "dim": d, "via": via}, F(1, 0, fills[1]), F(0, 2, fills[3]),
+                          {"op": "cat", "vs": [0], "dim": d, "via": "tf"}, F(4, 1, fills[1])])
+            add("store:whole-slice-is-same-object", kind, dtype, None, prog=[B, S(0, 0, sl(0, 3)), S(0, 1, sl(None, None)), F(1, 0, fills[1]), F(2, 2, fills[3])])
+    return out
+
+
 def generate(rng, tier):
-    n = 1600 if tier == "quick" else 30000
-    cases = [decorate(rng, gen_case(rng, tier)) for _ in range(n)]
+    n = 1500 if tier == "quick" else 30000
+    cases = boundary_cases(rng) + [decorate(rng, gen_case(rng, tier)) for _ in range(n)]
     if tier == "thorough":
         cases += small_scope(tier)
     return cases
@@ -1399,6 +1606,9 @@ def stats(cases, obss):
         d["kind"][kd] = d["kind"].get(kd, 0) + 1
         nodes = o.get("nodes", {})
         if "prog" in c:
+            if c.get("boundary"):
+                bd = d.setdefault("boundary", {})
+                bd[c["boundary"]] = bd.get(c["boundary"], 0) + 1
             sp = d.setdefault("store_ops", {})
             for st_ in c["prog"]:
                 sp[st_["op"]] = sp.get(st_["op"], 0) + 1
@@ -1412,6 +1622,9 @@ def stats(cases, obss):
             d["raised"] += 1
         if c["final"]["op"] == "dense":
             d["dense"] += 1
+        if c.get("boundary"):
+            bd = d.setdefault("boundary", {})
+            bd[c["boundary"]] = bd.get(c["boundary"], 0) + 1
         fm = d.setdefault("forms", {})
 
         def bump(k):
@@ -1470,7 +1683,7 @@ def sanity(cases, obss):
     if n < 200:
         return probs          # replay / tiny runs
     for sc in ("roundtrip", "zero-total", "cat", "reject", "reject-widths", "fill", "dense", "clone", "from", "dict",
-               "tensor", "store"):
+               "tensor", "store", "boundary"):
         if d["scenario"].get(sc, 0) == 0:
             probs.append(f"scenario {sc} never drawn")
     for kd in ("mnt/int", "mnt/float", "met/int", "met/float", "dense/int", "dense/float"):
@@ -1497,6 +1710,14 @@ def sanity(cases, obss):
         probs.append("fillna_col / to_dense / clone never drawn")
     if d["node_ops"].get("basecols", 0) == 0:
         probs.append("from_tensor_list on explicit column tensors never drawn")
+    drawn = d.get("boundary", {})
+    for b in BOUNDARIES:
+        if not any(k == b or k.startswith(b + ":") for k in drawn):
+            probs.append(f"boundary {b} never drawn")
+        elif b.startswith(("part:", "cat:one", "cat:two", "reject:empty", "reject:count")):
+            for ax in (":0", ":1"):
+                if drawn.get(b + ax, 0) == 0:
+                    probs.append(f"boundary {b} never drawn on axis {ax[1:]}")
     for op in ("base", "sel", "clone", "cat", "fill"):
         if d.get("store_ops", {}).get(op, 0) == 0:
             probs.append(f"store programs never contain {op}")
